@@ -357,7 +357,10 @@ def judge_real(ctx, got, ins, grads, f, mech, what):
     chains, union = dense.union_lists(snaps)
     wmax = max([1.0] + list(dense.weights(snaps, chains, union).values()))
     scale = dense.delta_scale(snaps, grads) * wmax
-    compare_obs(ctx, got, ref, mech, scale=scale, rtol=1e-11, what=what, rv_tol=1e-11)
+    # central value: rounding of an evaluation whose terms cancel (imaginary part of a complex quotient, a - b with a ~ b) is
+    # proportional to the size of the terms sum_k |g_k v_k|, not to the result
+    vscale = max(abs(ref['value']), abs(float(got.value)), float(sum(abs(g) * abs(s_['value']) for g, s_ in zip(grads, snaps))))
+    compare_obs(ctx, got, ref, mech, scale=scale, rtol=1e-11, what=what, rv_tol=1e-11, value_scale=vscale if np.isfinite(vscale) else None)
     moving = any(np.any(s['chains'][c][1] != 0) for s in snaps for c in s['chains'])
     aligned = any(len(union[c]) != len(s['chains'][c][0]) for s in snaps for c in s['chains']) or \
         any(set(s['chains']) != set(chains) for s in snaps if s['chains'])
